@@ -134,3 +134,134 @@ PROPS["C05"] = {
         H("c05_editor::c05_insert_twin", kind="twin"),
     ],
 }
+
+def _c10():
+    hs = []
+    for H_ in range(0, 6):
+        t = 300 + 300 * H_
+        hs.append(H("c10_history::h%d::push_step" % H_, tier="both" if H_ <= 4 else "thorough", bounds="H=%d, any state under history_inv, any well-formed text <= %d bytes (incl. NUL)" % (H_, H_ + 1), timeout=t, mem=2 + H_))
+        hs.append(H("c10_history::h%d::navigate_step" % H_, tier="both" if H_ <= 4 else "thorough", bounds="H=%d, any state, Up or Down" % H_, timeout=t, mem=2 + H_))
+        hs.append(H("c10_history::h%d::base" % H_, bounds="H=%d" % H_))
+    for H_ in (6, 7):
+        hs.append(H("c10_history::h%d::push_step" % H_, tier="thorough", cfg=["vp_thorough"], optional=True, bounds="H=%d" % H_, timeout=3400, mem=12))
+        hs.append(H("c10_history::h%d::navigate_step" % H_, tier="thorough", cfg=["vp_thorough"], optional=True, bounds="H=%d" % H_, timeout=3400, mem=8))
+    hs.append(H("c10_history::c10_from_new", bounds="H=4, 3 pushes of <=2 ASCII bytes then 3 navigations from new()", timeout=1500, mem=6))
+    hs.append(H("c10_history::c10_push_twin", kind="twin"))
+    return hs
+
+
+PROPS["C10"] = {
+    "claim": "History::push / next_older / next_newer from ANY state satisfying the representation invariant (entries non-empty, NUL-terminated, well-formed, pairwise distinct) equal the reference history (dedupe, minimal oldest-first eviction, rejects, newest-first navigation) byte for byte and re-establish the invariant, one instance per buffer size H = 0..4 (quick) / 0..7 (thorough); plus a bounded run from new() independent of the invariant",
+    "assumptions": [
+        "history_inv (base cases hN::base; every such state is reachable by submitting the entries oldest first and pressing Up)",
+        "after a rejected push the navigation position may be unchanged or reset (statement silent)",
+        "history buffers larger than the bound are outside the claim",
+    ],
+    "harnesses": _c10(),
+}
+
+PROPS["C11"] = {
+    "claim": "Autocompletion::merge_autocompletion for every free-space size 0..=4 and every list of <= 3 distinct candidate continuations of <= 3 well-formed bytes: result = longest common prefix on scalar boundaries, partial iff more than one candidate (exact when every candidate fits; safety half when one does not); Editor::autocompletion from ANY editor state (n <= 6 / 8) with <= 2 symbolic candidates: request = the single word, non-blank bytes never altered, valid <= n, line = word + common continuation + blank iff exactly one name and room; unchanged when nothing matches or an argument was started",
+    "assumptions": [
+        "the same command name proposed twice is outside the statement (assumed away)",
+        "when some matching name's continuation is longer than the free space ('buffer space permitting') only the safety half is demanded: a prefix of the common continuation, never marked complete",
+        "lines whose cursor is inside and that end in blanks are completed after dropping those blanks (the statement allows altering blanks)",
+    ],
+    "harnesses": [
+        H("c11_complete::c11_merge_fits", bounds="free space 0..=4, <=3 distinct candidates of <=3 bytes, all fitting", timeout=900, mem=4),
+        H("c11_complete::c11_merge_tight", bounds="free space 0..=4, <=3 distinct candidates of <=3 bytes, at least one longer than the free space", timeout=900, mem=4),
+        H("c11_complete::c11_editor_autocompletion", tier="quick", bounds="n<=6, any editor state, <=2 candidates of <=3 bytes", timeout=1500, mem=8),
+        H("c11_complete::c11_editor_autocompletion", tier="thorough", cfg=["vp_thorough"], bounds="n<=8", timeout=3400, mem=12),
+        H("c11_complete::c11_merge_twin", kind="twin"),
+    ],
+}
+
+PROPS["C12"] = {
+    "claim": "HelpRequest::from_command on every argument token buffer of <= 6 (quick) / 8 (thorough) well-formed bytes, for the name `help` and for another name: All iff `help` alone; Command(first value, rest) iff `help` + value; for other names Some iff an option before any `--` is --help or a cluster containing h",
+    "assumptions": ["`help` followed directly by an option or `--` is left open by the statement"],
+    "harnesses": [
+        H("c12_help::c12_request_predicate", tier="quick", bounds="token buffer <= 6 bytes, name in {help, led}", timeout=1500, mem=6),
+        H("c12_help::c12_request_predicate", tier="thorough", cfg=["vp_thorough"], bounds="token buffer <= 8 bytes", timeout=3400, mem=12),
+        H("c12_help::c12_request_twin", kind="twin"),
+    ],
+}
+
+PROPS["C13"] = {
+    "claim": "Writer: ONE call of a symbolically chosen entry point (write_str / writeln_str / core::fmt::Write::write_str / ufmt::uWrite::write_str) with symbolic well-formed text <= 3 bytes over {x, e-acute, CR, LF} from an ARBITRARY writer state under its invariant: the sink receives exactly the text with each LF replaced by CR LF (+ CR LF for writeln_str), and a line break is owed iff the output so far is non-empty and does not end with LF; inductive, so any number of calls; plus a two-call run from new()",
+    "assumptions": [
+        "writer invariant: the remembered last two bytes never contain LF (base case c13_writer_base)",
+        "formatted writes are represented by the two trait entry points that write!/uwrite! call; the formatting engines themselves are core/ufmt code",
+        "texts longer than 3 bytes per call and other characters are outside the claim",
+    ],
+    "harnesses": [
+        H("c13_output::c13_step_write_str", bounds="any writer state, write_str, text <= 3 bytes over {x, e-acute, CR, LF}", timeout=900, mem=6),
+        H("c13_output::c13_step_writeln_str", bounds="any writer state, writeln_str, text <= 3 bytes over {x, e-acute, CR, LF}", timeout=900, mem=6),
+        H("c13_output::c13_step_fmt_write", bounds="any writer state, core::fmt::Write::write_str, text <= 3 bytes", timeout=900, mem=6),
+        H("c13_output::c13_step_uwrite", bounds="any writer state, ufmt::uWrite::write_str, text <= 3 bytes", timeout=900, mem=6),
+        H("c13_output::c13_writer_base", bounds="Writer::new()"),
+        H("c13_output::c13_writer_two_calls", bounds="2 calls of write_str/writeln_str x text <= 2 bytes from new()", timeout=900, mem=6),
+        H("c13_output::c13_writer_twin", kind="twin"),
+    ],
+}
+
+
+# ---------------------------------------------------------------------------- Cli-level steps
+CLI_BOUNDS = "one key from ANY CliInv state: command buffer N=3, history buffer H=3 (all contents/cursors), prompt in {'', '$ ', 'e-acute> '}"
+CLI_ASSUME = [
+    "CliInv = editor_inv + history_inv (entries were editor lines, each <= N bytes) + prompt from a fixed set of three; every such state is reachable through the public API",
+    "keys enter through the cfg-guarded per-key entries (__verif_on_control / __verif_on_text = body of process_byte behind the decoder); the glue harness c01 glue_* ties them to process_byte",
+    "handler = a recording closure; handlers that re-enter the Cli are outside the claim",
+    "lines the tokenizer statement leaves open (backslash + other byte inside quotes) and `help` followed by an option are assumed away",
+]
+
+
+def cli_keys(mod_prefix, names, **kw):
+    out = []
+    for n in names:
+        d = dict(kw)
+        if "char" in n:
+            # typed text: the library's debug_assert on chars().count() is compiled out for these
+            d["nodebug"] = True
+        out.append(H("%s::%s" % (mod_prefix, n), bounds=CLI_BOUNDS, **d))
+    return out
+
+
+CHEAP = ["key_backspace", "key_forward", "key_back", "key_up", "key_down", "key_char1", "key_char2", "key_char3", "key_char4", "key_tab"]
+
+PROPS["C01"] = {
+    "claim": "Cli-level one-step induction: from ANY state satisfying CliInv (N=3,H=3 quick; N=4 thorough) no key other than Enter enters the handler; Enter enters it exactly once iff the line has a token and is not a help request, with exactly the reference tokens (name + classified arguments), leaves an empty line, records the text in the history and prints one fresh prompt on a new row; CliInv is re-established, so the claim covers edit histories of any length",
+    "assumptions": CLI_ASSUME,
+    "harnesses": cli_keys("cli_steps", CHEAP, tags=["C01"], timeout=900, mem=4) + [
+        H("cli_steps::key_enter", tags=["C01"], bounds=CLI_BOUNDS + "; handler view compared on call count and command name (argument items: next entry and process_input_routing)", timeout=2400, mem=14),
+        H("cli_steps::key_enter", tags=["C01"], features=["history", "autocomplete"], bounds=CLI_BOUNDS + "; build without `help`: handler view compared item by item", timeout=2400, mem=14),
+        H("cli_steps::process_input_routing", tags=["C01", "C12"], bounds="every token buffer of <= 6 well-formed bytes handed to process_input", timeout=2400, mem=14),
+        H("cli_steps::api_build", tags=["C01"], bounds="CliBuilder::build() with each of the three prompts"),
+        H("cli_steps::key_enter_twin", kind="twin"),
+    ],
+}
+
+PROPS["C15"] = {
+    "claim": "after every successful Cli-level step (every key incl. Enter, from ANY CliInv state, N=3,H=3) the counting sink has no unflushed byte",
+    "assumptions": CLI_ASSUME,
+    "harnesses": cli_keys("cli_steps", CHEAP, tags=["C15"], timeout=900, mem=4) + [
+        H("cli_steps::key_enter", tags=["C15"], bounds=CLI_BOUNDS, timeout=1800, mem=10),
+    ],
+}
+
+PROPS["C09"] = {
+    "claim": "for each variant of a corpus of derive(Command)/derive(CommandGroup) declarations (expanded by /repo's macros at every run: unit, struct and tuple variants; positional / option / flag fields; u8, i8, &str, bool; Option; default_value; default_value_t; explicit and generated short/long names incl. a non-ASCII short; value_name; renamed command; required and optional sub-commands; a group with a hidden member and a catch-all) and EVERY argument token buffer of <= 5 (quick) / 6 (thorough) well-formed bytes, the derived FromRaw::parse and a declaration interpreter agree on the outcome: the variant, every field value (strings by position), or the first offending item with its payload",
+    "assumptions": [
+        "the program quantifier (all declarations) is covered by a finite hand-written corpus only; the proc-macro itself is not executed symbolically",
+        "assumed away (statement silent): an option name directly followed by another option, by `--` or by the end of the line; a value-taking option given twice",
+        "f32/f64 and the wider integer types are outside the claim",
+    ],
+    "harnesses": [
+        H("c09_derive::c09_p1_exit", bounds="unit variant, every token buffer <= 5 bytes", timeout=1200, mem=6),
+        H("c09_derive::c09_p1_led", bounds="positional u8 + Option<u8> option (-l/--lv) + flag (-v/--verbose), every token buffer <= 5 bytes", timeout=1800, mem=8),
+        H("c09_derive::c09_p1_read", bounds="renamed command, &str positional + i8 positional with default_value, every token buffer <= 5 bytes", timeout=1800, mem=8),
+        H("c09_derive::c09_p1_cfg", bounds="u8 option with default_value_t (--n), required &str option with value_name (-k), non-ASCII flag, every token buffer <= 5 bytes", timeout=1800, mem=8),
+        H("c09_derive::c09_name_dispatch", bounds="every command name of <= 4 bytes against P1 and the group G", timeout=1200, mem=6),
+        H("c09_derive::c09_p2_subcommand", bounds="three parent variants (named, tuple, optional sub-command), every token buffer <= 5 bytes whose sub-command name is the last token", timeout=1800, mem=8),
+        H("c09_derive::c09_twin", kind="twin"),
+    ],
+}
